@@ -1701,7 +1701,8 @@ func c08RoutingLines(r *rand.Rand, in c08In) []Bs {
 			return l
 		}
 	}
-	return []Bs{"image/png"}
+	// nothing order-free was drawn: a range no offer matches leaves nothing to the order of the offers
+	return []Bs{"x-none/x-none"}
 }
 
 func c08GenRouting(r *rand.Rand) c08In {
